@@ -507,11 +507,25 @@ def gen_keepalive2(rng, knobs=None):
     period = rng.choice([50, 100, 300])
     opts = {'mode': rng.choice(['tcp', 'msg']), 'keepalive_ms': period, 'lifetime_ms': rng.choice([period, 4 * period, 600000])}
     prog = [['start'], ['pump']]
+    if rng.random() < 0.5:
+        opts['frag'] = 64
+    blocked = False
     for _ in range(rng.randint(3, 12)):
         prog.append(['advance', rng.choice([period // 2, period, period * 2 + 1])])
         prog.append(['pump'] if rng.random() < 0.8 else ['settle'])
-        if rng.random() < 0.2:
+        r = rng.random()
+        if r < 0.2:
             prog.append(['rr', 'c', spec(rng, big=False), {'mode': 'immediate', 'resp': spec(rng, big=False)}])
+        elif r < 0.35:
+            # traffic and back-pressure: a (fragmented) upload while the client's transport does not accept writes for a while -
+            # the keep-alive task has to keep queueing its frame every period whatever is still waiting to be written
+            prog.append(['fnf', 'c', spec(rng, big=True)])
+        elif r < 0.5 and not blocked:
+            prog.append(['gate_close', 'c'])
+            blocked = True
+        elif r < 0.6 and blocked:
+            prog.append(['gate_open', 'c'])
+            blocked = False
     prog.append(['pump'])
     prog.append(['snapshot', 'final'])
     return opts, prog
